@@ -292,6 +292,8 @@ enum Profile {
     UserDicForm,
     Escapes,
     Tiny,
+    /// an indexed row (left id >= 0) with right id -1: rejected by validate_entries since the D3 repair
+    NegRight,
 }
 
 fn gen_form(rng: &mut Rng, headword: &str, surface: &str, allow_empty: bool) -> String {
@@ -375,7 +377,7 @@ fn gen_world(rng: &mut Rng, profile: Profile) -> World5 {
     let idn = nl.min(nr);
     let k = rng.range(3, 7);
     let pool: Vec<char> = (0..k).map(|_| *rng.pick(PLAIN)).collect();
-    let size = match profile { Profile::Tiny => rng.range(1, 3), Profile::Huge => 3, _ => rng.range(4, 40) };
+    let size = match profile { Profile::Tiny | Profile::NegRight => rng.range(1, 3), Profile::Huge => 3, _ => rng.range(4, 40) };
     let rich = !matches!(profile, Profile::Huge);
     let mut rows: Vec<GRow> = (0..size).map(|_| gen_row(rng, pos.len(), idn, &pool, rich)).collect();
     // at least one indexed row (the trie builder panics on an empty key set: D4, property C06)
@@ -413,6 +415,12 @@ fn gen_world(rng: &mut Rng, profile: Profile) -> World5 {
             rows[1].reading = rows[1].headword.clone();
             rows[1].norm = rows[1].headword.clone();
             for r in rows.iter_mut() { r.escape = 0; }
+        }
+        Profile::NegRight => {
+            tags.push("neg-right");
+            let k = rows.len() - 1;
+            rows[k].left = 0;
+            rows[k].right = -1;
         }
         Profile::Escapes => {
             tags.push("escapes");
@@ -522,6 +530,28 @@ fn build(system: Option<&LoadedDictionary>, time: u64, desc: &str, matrix: Optio
     }
 }
 
+/// Which `write_word_info` is linked (model variant `storeDf`): does a user row that names an own entry as `U1`
+/// load with that entry's headword as its dictionary form (repair of D8's first half), or does it panic / read
+/// something else (the code as it stands)?  Behavioural probe, evaluated once.
+fn df_variant() -> &'static str {
+    static V: std::sync::OnceLock<&'static str> = std::sync::OnceLock::new();
+    V.get_or_init(|| {
+        let row = |s: &str, df: &str| format!("{s},0,0,0,{s},名詞,普通名詞,一般,*,*,*,{s},{s},{df},A,*,*,*,*\n", s = s, df = df);
+        let sys = build(None, TIME0, "probe", Some(b"1 1\n0 0 0\n"), row("あ", "*").as_bytes());
+        let Ok(sb) = sys else { return "cur" };
+        let Some(sl) = DictionaryLoader::read_system_dictionary(&sb).ok().and_then(|l| l.to_loaded()) else { return "cur" };
+        let ucsv = format!("{}{}", row("い", "U1"), row("う", "*"));
+        let Ok(ub) = build(Some(&sl), TIME0, "probe", None, ucsv.as_bytes()) else { return "cur" };
+        match load_and_dump(&sb, Some(&ub), &[]) {
+            Ok(l) => match l.words.get(1).and_then(|w| w.first()) {
+                Some(Ok(o)) if o.dicform == "う" => "fix",
+                _ => "cur",
+            },
+            Err(_) => "cur",
+        }
+    })
+}
+
 fn records_of(csv: &[u8]) -> Option<String> {
     let mut reader = csv::ReaderBuilder::new().has_headers(false).trim(csv::Trim::None).flexible(true).from_reader(csv);
     let mut rec = csv::StringRecord::new();
@@ -569,6 +599,10 @@ struct Loaded {
     matrix: Vec<Vec<Option<i16>>>, // [r][l]
     nl: usize,
     nr: usize,
+    /// (version, creation time, description) of the system header and of the user header
+    hdrs: Vec<(u64, u64, String)>,
+    /// per distinct source key: `LexiconSet::lookup(key, 0)` as (raw word id, end), None = panic
+    look: Vec<(String, Option<Vec<(u32, usize)>>)>,
 }
 
 #[derive(Clone, Debug)]
@@ -587,15 +621,16 @@ struct WordObs {
 }
 
 /// load the dictionaries from the given byte slices and read every observable back
-fn load_and_dump(sys: &[u8], usr: Option<&[u8]>) -> Result<Loaded, String> {
+fn load_and_dump(sys: &[u8], usr: Option<&[u8]>, keys: &[String]) -> Result<Loaded, String> {
     let r = catch(|| -> Result<Loaded, String> {
         let sl = DictionaryLoader::read_system_dictionary(sys).map_err(|_| "err stage=load".to_string())?;
-        let hdr = sl.header.clone();
+        let mut hdrs = vec![(sl.header.version.to_u64(), sl.header.create_time, sl.header.description.clone())];
         let mut sizes = vec![sl.lexicon.size() as usize];
         let mut ld = sl.to_loaded().ok_or("err stage=load".to_string())?;
         if let Some(u) = usr {
             let ul = DictionaryLoader::read_user_dictionary(u).map_err(|_| "err stage=uload".to_string())?;
             sizes.push(ul.lexicon.size() as usize);
+            hdrs.push((ul.header.version.to_u64(), ul.header.create_time, ul.header.description.clone()));
             let npos = ld.grammar.pos_list.len();
             ld.lexicon_set.append(ul.lexicon, npos).map_err(|_| "err stage=uload".to_string())?;
             if let Some(g) = ul.grammar { ld.grammar.merge(g); }
@@ -646,12 +681,25 @@ fn load_and_dump(sys: &[u8], usr: Option<&[u8]>) -> Result<Loaded, String> {
             out.words.push(ws);
             out.params.push(ps);
         }
+        // the trie and the word-id table as the loader located them: every distinct source key looked up
+        let mut ltexts = vec![];
+        for k in keys {
+            let r = catch(|| ld.lexicon_set.lookup(k.as_bytes(), 0).map(|e| (e.word_id.as_raw(), e.end)).collect::<Vec<_>>()).ok();
+            ltexts.push(match &r {
+                None => "PANIC".to_string(),
+                Some(v) if v.is_empty() => "-".to_string(),
+                Some(v) => v.iter().map(|(w, e)| format!("{}:{}", w, e)).collect::<Vec<_>>().join(","),
+            });
+            out.look.push((k.clone(), r));
+        }
+        let show_hdr = |h: &(u64, u64, String)| format!("{}:{}:{}", h.0, h.1, hex(h.2.as_bytes()));
         out.text = format!(
-            "hdr={}:{} pos={} mat={}x{}:{} words={}",
-            hdr.create_time, hex(hdr.description.as_bytes()),
+            "hdr={}{} pos={} mat={}x{}:{} words={} look={}",
+            show_hdr(&hdrs[0]), hdrs.get(1).map_or(String::new(), |h| format!(" uhdr={}", show_hdr(h))),
             out.pos.iter().map(|p| p.iter().map(|s| show_str(s)).collect::<Vec<_>>().join("/")).collect::<Vec<_>>().join(";"),
-            out.nl, out.nr, cells.join(","), wtexts.join("|")
+            out.nl, out.nr, cells.join(","), wtexts.join("|"), ltexts.join(";")
         );
+        out.hdrs = hdrs;
         Ok(out)
     });
     match r {
@@ -788,15 +836,17 @@ pub fn run(run: &mut Run) {
 non-indexed rows, headword/reading/normalised form equal to / different from the headword / empty, \\uXXXX and \\u{X} escapes, astral characters, \
 id and inline split references, U-references, word structure, synonym groups, dictionary forms, 18- and 19-column rows) x random matrix text \
 (square and non-square, sparse, shuffled, overwritten cells, blank lines, tabs, CRLF); directed low indices force 126/127/128-unit strings and \
-126/127/128-byte keys, 32767-unit strings, 0/1/126/127/128 array items, 127/128 homographs, 255/256/257-byte descriptions; non-trivial = compiles \
-and loads; distinct by line".into();
+126/127/128-byte keys, 32767-unit strings, 0/1/126/127/128 array items, 127/128 homographs, 255/256/257-byte descriptions, an indexed row with \
+right id -1; observed per case: all bytes of both dictionaries, both headers (version, time, description), POS list, every matrix cell, every field and \
+the parameters of every word, LexiconSet::lookup of every source key; non-trivial = compiles and loads; distinct by line".into();
     let directed: Vec<Profile> = vec![
         Profile::Tiny, Profile::LenBoundary(127), Profile::LenBoundary(128), Profile::LenBoundary(126), Profile::LenBoundary(255), Profile::LenBoundary(256),
         Profile::Arrays(127), Profile::Arrays(128), Profile::Arrays(1), Profile::Arrays(126), Profile::Homographs(127), Profile::Homographs(128),
         Profile::Desc(255), Profile::Desc(256), Profile::Desc(257), Profile::Desc(0), Profile::UserRefs, Profile::UserDicForm, Profile::Escapes, Profile::Huge,
-        Profile::UserRefs, Profile::UserDicForm, Profile::Escapes, Profile::UserRefs,
+        Profile::UserRefs, Profile::UserDicForm, Profile::Escapes, Profile::UserRefs, Profile::NegRight,
     ];
     let n = run.opts.count;
+    run.bump(&format!("variant:df={}", df_variant()));
     for idx in 0..n {
         if !run.wants(idx) { continue; }
         let mut rng = Rng::for_case(run.opts.seed, idx);
@@ -810,6 +860,11 @@ and loads; distinct by line".into();
         let csv = csv_of(&mut rng, &w, &w.sys, false);
         let ucsv = w.usr.as_ref().map(|u| csv_of(&mut rng, &w, u, true));
         let mtext = w.matrix.text.clone();
+        // distinct keys (column 0) of the source rows, system rows first, in order of first appearance
+        let mut keys: Vec<String> = vec![];
+        for r in w.sys.rows.iter().chain(w.usr.iter().flat_map(|u| u.rows.iter())) {
+            if !keys.contains(&r.surface) { keys.push(r.surface.clone()); }
+        }
 
         // ---- real implementation ----
         let sys = build(None, time, &w.desc, Some(mtext.as_bytes()), csv.as_bytes());
@@ -820,7 +875,7 @@ and loads; distinct by line".into();
             (Some(r), Some(Some(u))) => (r, Some(u)),
             _ => { run.bump("generator:csv-unreadable"); continue; }
         };
-        let mut payload = format!("time={} desc={} mat={} rows={}", time, hex(w.desc.as_bytes()), hex(mtext.as_bytes()), recs);
+        let mut payload = format!("df={} time={} desc={} mat={} rows={}", df_variant(), time, hex(w.desc.as_bytes()), hex(mtext.as_bytes()), recs);
         let mut answer;
         let mut loaded: Option<Loaded> = None;
         let mut bins: Option<(Vec<u8>, Option<Vec<u8>>)> = None;
@@ -858,7 +913,7 @@ and loads; distinct by line".into();
                     }
                 }
                 if !stop {
-                    match load_and_dump(sb, ub.as_deref()) {
+                    match load_and_dump(sb, ub.as_deref(), &keys) {
                         Ok(l) => { answer.push(' '); answer.push_str(&l.text); loaded = Some(l); run.bump("outcome:ok"); }
                         Err(e) => { answer = e.clone(); run.bump(&format!("outcome:{}", e)); load_failed = Some(e); }
                     }
@@ -889,6 +944,32 @@ and loads; distinct by line".into();
                 }
             } }
         }
+        // header: version of the dictionary kind, the creation time given to the builder, the description
+        // (Header::parse cuts it at the first NUL byte; a NUL-free description must come back unchanged)
+        let upto_nul = |d: &str| d.split('\u{0}').next().unwrap_or("").to_string();
+        for (k, (h, (ver, desc))) in l.hdrs.iter().zip([(0xce9f011a92394434u64, &w.desc), (0xca9811756ff64fb0u64, &w.udesc)]).enumerate() {
+            let pre = if k == 0 { "header" } else { "uheader" };
+            if h.0 != ver { run.fail(idx, &format!("c05:{}:version", pre), &format!("header version {:#x}, expected {:#x}", h.0, ver)); fails += 1; }
+            if h.1 != time { run.fail(idx, &format!("c05:{}:time", pre), &format!("creation time loaded {}, set {}", h.1, time)); fails += 1; }
+            if h.2 != upto_nul(desc) { run.fail(idx, &format!("c05:{}:description", pre), &format!("description loaded {:?}, set {:?}", h.2, desc)); fails += 1; }
+        }
+        // index: every indexed row is found under its key with its own id and the key's length, and nothing is
+        // found that is not an indexed row whose key is that prefix (trie + word-id table as loaded)
+        for (key, res) in &l.look {
+            let Some(res) = res else { run.fail(idx, "c05:index:panic", &format!("lookup of key {:?} panicked", key)); fails += 1; continue };
+            let dicts: Vec<&GDict> = std::iter::once(&w.sys).chain(w.usr.iter()).collect();
+            for (d, dict) in dicts.iter().enumerate() {
+                for (i, r) in dict.rows.iter().enumerate() {
+                    let id = ((d as u32) << 28) | i as u32;
+                    let want = r.left >= 0 && key.as_bytes().starts_with(r.surface.as_bytes());
+                    let got = res.iter().filter(|x| **x == (id, r.surface.len())).count();
+                    if want && got != 1 { run.fail(idx, "c05:index:missing", &format!("lookup({:?}) does not return row {} of dictionary {} exactly once", key, i, d)); fails += 1; }
+                    if !want && res.iter().any(|x| x.0 == id) { run.fail(idx, "c05:index:spurious", &format!("lookup({:?}) returns row {} of dictionary {}", key, i, d)); fails += 1; }
+                }
+            }
+            let total: usize = dicts.iter().map(|dd| dd.rows.iter().filter(|r| r.left >= 0 && key.as_bytes().starts_with(r.surface.as_bytes())).count()).sum();
+            if res.len() != total { run.fail(idx, "c05:index:count", &format!("lookup({:?}) returns {} entries, {} rows are indexed prefixes", key, res.len(), total)); fails += 1; }
+        }
         // determinism: a second compilation of the same inputs
         let again = build(None, time, &w.desc, Some(mtext.as_bytes()), csv.as_bytes());
         if again.as_ref().ok() != Some(sb) {
@@ -907,8 +988,8 @@ and loads; distinct by line".into();
         let (b0, s0) = at_alignment(sb, 0);
         let (b1, s1) = at_alignment(sb, 1);
         let ua = ub.as_ref().map(|u| (at_alignment(u, 0), at_alignment(u, 1)));
-        let d0 = load_and_dump(&b0[s0..s0 + sb.len()], ua.as_ref().map(|x| &x.0 .0[x.0 .1..x.0 .1 + ub.as_ref().unwrap().len()]));
-        let d1 = load_and_dump(&b1[s1..s1 + sb.len()], ua.as_ref().map(|x| &x.1 .0[x.1 .1..x.1 .1 + ub.as_ref().unwrap().len()]));
+        let d0 = load_and_dump(&b0[s0..s0 + sb.len()], ua.as_ref().map(|x| &x.0 .0[x.0 .1..x.0 .1 + ub.as_ref().unwrap().len()]), &keys);
+        let d1 = load_and_dump(&b1[s1..s1 + sb.len()], ua.as_ref().map(|x| &x.1 .0[x.1 .1..x.1 .1 + ub.as_ref().unwrap().len()]), &keys);
         let t0 = d0.map(|x| x.text).unwrap_or_else(|e| e);
         let t1 = d1.map(|x| x.text).unwrap_or_else(|e| e);
         if t0 != t1 || t0 != l.text {
